@@ -205,6 +205,9 @@ def run(ctx, model_ok):
                 "{create, append, delete files, expire, delete snapshot, collect} on tables with {1, 3} (thorough: 0–6) prior snapshots: one "
                 "crash image per boundary + truncated-temp-file variants inside the parquet write; every image re-read, appended to and collected.")
     base = scratch_dir("c03-")
+    import time as _time
+    real_sleep = _time.sleep
+    _time.sleep = lambda s_: real_sleep(0)      # commit retry back-off: a change that makes follow-up commits fail must not cost minutes per image
     try:
         priors = [1, 3] if not ctx.thorough else [0, 1, 2, 3, 4, 6]
         _one(ctx, rep, "create", 0, base)
@@ -213,5 +216,6 @@ def run(ctx, model_ok):
                 _one(ctx, rep, op, n, base)
         rep.exhaustive = True
     finally:
+        _time.sleep = real_sleep
         shutil.rmtree(base, ignore_errors=True)
     return rep
